@@ -1516,6 +1516,36 @@ fn script_ergsym_before_tip902(h: &mut Hist, r: &mut Rng) {
     let outs = vec![crate::txgen::out(a0, amount, l), crate::txgen::out(a0, amount, rr), crate::txgen::out(a0, 1_000_000_000_000 - amount, l), crate::txgen::out(a0, 1_000_000_000_000 - amount, rr), crate::txgen::out(a0, 1_000_000_000_000, Denom::Mel)];
     let dep = assemble(&h.wallet, TxKind::LiqDeposit, &ins, outs, 0, key.to_bytes().to_vec());
     h.w.names.reg_tx(&dep);
+    if r.chance(1, 2) {
+        // variant: nobody opens the pool before the activation.  The first request for it arrives in the activation block
+        // itself - on the node that ran through, and on a node restarted from the last block before the activation: the
+        // built-in pool is created (10^9 a side, owned by nobody) before the deposit is settled into it, on both
+        let activation = if network == NetID::Testnet { 500u64 } else { 180_000 };
+        let mut last: Option<String> = None;
+        while h.parts(&u).height.0 < activation {
+            let Some(s) = h.op_seal(&u, None) else { return };
+            let Some(nu) = h.op_next(&s) else { return };
+            last = Some(s);
+            u = nu;
+        }
+        let mut lineages = vec![u.clone()];
+        if let Some(s) = last {
+            if let Some(rs) = h.op_restore(&s) {
+                if let Some(ru) = h.op_next(&rs) {
+                    lineages.push(ru);
+                }
+            }
+        }
+        for lu in lineages {
+            let Some(b) = h.op_batch(&lu, &[dep.clone()], "t902:first-request-in-the-activation-block") else { continue };
+            let Some(s) = h.op_seal(&b, None) else { continue };
+            let Some(n1) = h.op_next(&s) else { continue };
+            let Some(s2) = h.op_seal(&n1, None) else { continue };
+            let _ = h.op_next(&s2);
+        }
+        h.bump("history:ergsym-first-request-at-activation-script");
+        return;
+    }
     let Some(u1) = h.op_batch(&u, &[dep.clone()], "t902:open-ergsym") else { return };
     let Some(s1) = h.op_seal(&u1, None) else { return };
     let Some(u2) = h.op_next(&s1) else { return };
@@ -1958,7 +1988,7 @@ fn history_body(h: &mut Hist, r: &mut Rng, em: &Emphasis) {
         script_dust_withdrawal(h, r);
         return;
     }
-    if em.tip_edges > 0 && r.chance(1, 20) {
+    if em.tip_edges > 0 && r.chance(1, 10) {
         script_ergsym_before_tip902(h, r);
         return;
     }
